@@ -135,7 +135,8 @@ type profile struct {
 }
 
 type schedule struct {
-	n      int
+	n       int
+	overlap bool
 	labels []mlabel
 	modes  map[int]int // task -> 0 Submit+receive, 1 SubmitWait, 2 ExecuteWithWorker
 	kind   string
@@ -143,7 +144,7 @@ type schedule struct {
 
 func sample(r *Rand, p profile) schedule {
 	s := minit(p.workers)
-	sc := schedule{n: p.workers, modes: map[int]int{}, kind: p.kind}
+	sc := schedule{n: p.workers, overlap: p.overlap, modes: map[int]int{}, kind: p.kind}
 	nextTask, stops, resizes := 0, p.stops, p.resizes
 	for step := 0; step < 160; step++ {
 		type cand struct {
@@ -300,7 +301,7 @@ func corpusSpecs(overlap bool) []corpusSpec {
 func corpus(overlap bool) []Case {
 	var out []Case
 	for i, cs := range corpusSpecs(overlap) {
-		sc := schedule{n: cs.n, labels: cs.labels, modes: map[int]int{}, kind: cs.name}
+		sc := schedule{n: cs.n, overlap: overlap, labels: cs.labels, modes: map[int]int{}, kind: cs.name}
 		c := enact(sc, i, "quick")
 		c.Kind = cs.name
 		out = append(out, c)
@@ -351,6 +352,7 @@ type run struct {
 	started  map[int]bool
 	finished map[int]bool
 	resolved map[int]bool
+	retSeen  map[int]bool
 	called   []int
 	stopOut  int // calls not yet returned
 	rzOut    int
@@ -454,6 +456,7 @@ func (r *run) note(e rawEv) {
 		r.finished[e.t] = true
 		r.add(fmt.Sprintf("EFinish %d", e.t), fmt.Sprintf("finish(%d)", e.t))
 	case evRet:
+		r.retSeen[e.t] = true
 		r.add(fmt.Sprintf("ERet %d %s", e.t, CBool(e.acc)), fmt.Sprintf("submit(%d)=%v", e.t, map[bool]string{true: "accepted", false: "nil"}[e.acc]))
 	case evRes:
 		r.resolved[e.t] = true
@@ -504,6 +507,36 @@ func (r *run) quiet(d time.Duration) {
 	}
 }
 
+// load = (tasks executing, tasks queued) as far as the driver can tell.  Stats() takes resizeMu, which a
+// Stop or Resize in progress holds, so with a call outstanding the driver's own bookkeeping is used
+// (queued = called, neither started nor answered).
+func (r *run) load() (active, queued int) {
+	if r.stopOut == 0 && r.rzOut == 0 {
+		_, a, q := r.pool.Stats()
+		return a, q
+	}
+	for _, t := range r.called {
+		switch {
+		case r.started[t] && !r.finished[t]:
+			active++
+		case !r.started[t] && !r.resolved[t]:
+			queued++
+		}
+	}
+	return
+}
+
+// unsettled = calls of which nothing has been seen yet (no return value, no start, no answer)
+func (r *run) unsettled() int {
+	n := 0
+	for _, t := range r.called {
+		if !r.resolved[t] && !r.started[t] && !r.retSeen[t] {
+			n++
+		}
+	}
+	return n
+}
+
 func (r *run) finish(t int) bool {
 	if !r.started[t] || r.finished[t] {
 		return false
@@ -514,7 +547,7 @@ func (r *run) finish(t int) bool {
 
 func enact(sc schedule, idx int, tier string) Case {
 	r := &run{evc: make(chan rawEv, 4096), gates: map[int]chan struct{}{}, started: map[int]bool{}, finished: map[int]bool{},
-		resolved: map[int]bool{}, tags: map[string]int{}, settle: 1500 * time.Millisecond}
+		resolved: map[int]bool{}, retSeen: map[int]bool{}, tags: map[string]int{}, settle: 1500 * time.Millisecond}
 	if tier == "thorough" {
 		r.settle = 2500 * time.Millisecond
 	}
@@ -533,6 +566,9 @@ func enact(sc schedule, idx int, tier string) Case {
 	for _, l := range sc.labels {
 		switch l.kind {
 		case lSubmitCall:
+			// keep the number of Submit calls whose fate is not yet visible small: every such call multiplies
+			// the set of model states the Coq monitor has to track
+			r.wait(70*time.Millisecond, func() bool { return r.unsettled() < 2 })
 			r.called = append(r.called, l.arg)
 			r.add(fmt.Sprintf("ECall %d", l.arg), fmt.Sprintf("call(%d,%s)", l.arg, []string{"Submit", "SubmitWait", "ExecuteWithWorker"}[sc.modes[l.arg]]))
 			r.tags["submits"]++
@@ -557,7 +593,11 @@ func enact(sc schedule, idx int, tier string) Case {
 			}
 			r.quiet(step)
 		case lStopCall:
-			_, active, queued := r.pool.Stats()
+			if !r.wait(expect, func() bool { return r.stopOut == 0 && (sc.overlap || r.rzOut == 0) }) {
+				notEnacted("call") // the model has one Stop call at a time (and this stream does not overlap calls)
+				continue
+			}
+			active, queued := r.load()
 			if active+queued > 0 {
 				r.tags["stop_with_work"]++
 			}
@@ -576,7 +616,11 @@ func enact(sc schedule, idx int, tier string) Case {
 			go func() { r.pool.Stop(); r.evc <- rawEv{kind: evStopRet} }()
 			r.quiet(step)
 		case lRzCall:
-			_, active, queued := r.pool.Stats()
+			if !r.wait(expect, func() bool { return r.rzOut == 0 && (sc.overlap || r.stopOut == 0) }) {
+				notEnacted("call")
+				continue
+			}
+			active, queued := r.load()
 			if active+queued > 0 {
 				r.tags["resize_with_work"]++
 			}
